@@ -4,7 +4,7 @@
 use crate::oracle::{
     comps_of, is_dot, is_dotdot, normalize_list, plain_rendering_ok, rendering_eq_k, seg, shield_permitted, split_path, split_ref, SegList,
 };
-use crate::sym::{as_str, assume, bytes_eq, is_subslice, vec_of, Text};
+use crate::sym::{as_str, assume, bytes_eq, is_subslice, vec_cap, vec_of, Text};
 use crate::{cover, tables};
 use iref_core::{iri, uri, UriRefBuf};
 use std::mem::forget;
@@ -39,7 +39,7 @@ fn normalized_segments<const N: usize>() {
     forget(it);
 }
 
-// @h prop=C09,C12 tier=quick kind=check timeout=2400 mem=20 bound="uri::Path text <= 5 bytes (at most 16 segments / no SmallVec spill)" encodes="NormalizedSegmentsImpl::new;PathImpl::normalized_segments;smallvec IntoIter (SmallVec::push/try_grow stubbed: spill asserted unreachable)"
+// @h prop=C09,C12 tier=quick kind=check timeout=2400 mem=10 bound="uri::Path text <= 5 bytes (at most 16 segments / no SmallVec spill)" encodes="NormalizedSegmentsImpl::new;PathImpl::normalized_segments;smallvec IntoIter (SmallVec::push/try_grow stubbed: spill asserted unreachable)"
 #[cfg_attr(kani, kani::proof)]
 #[cfg_attr(kani, kani::unwind(8))]
 #[cfg_attr(kani, kani::stub(smallvec::SmallVec::try_grow, crate::stubs::sv_try_grow))]
@@ -77,7 +77,7 @@ fn normalized_segments_dots<const N: usize>() {
     forget(it);
 }
 
-// @h prop=C09,C12 tier=quick kind=check timeout=3000 mem=24 bound="paths <= 7 bytes over the alphabet {'.','/','a'}" encodes="NormalizedSegmentsImpl::new (stack discipline for '..' after '..', after a segment, at the root)"
+// @h prop=C09,C12 tier=quick kind=check timeout=2400 mem=10 bound="paths <= 7 bytes over the alphabet {'.','/','a'}" encodes="NormalizedSegmentsImpl::new (stack discipline for '..' after '..', after a segment, at the root)"
 #[cfg_attr(kani, kani::proof)]
 #[cfg_attr(kani, kani::unwind(10))]
 #[cfg_attr(kani, kani::stub(smallvec::SmallVec::try_grow, crate::stubs::sv_try_grow))]
@@ -140,7 +140,16 @@ fn normalized_copy<const N: usize>() {
     forget(r);
 }
 
-// @h prop=C09 tier=quick kind=check timeout=2400 mem=20 bound="uri::Path text <= 4 bytes" encodes="PathImpl::normalized;PathMutImpl::{symbolic_push,push,pop};to_path_buf"
+// @h prop=C09 tier=thorough kind=check timeout=3600 mem=34 bound="uri::Path text <= 3 bytes" encodes="PathImpl::normalized;PathMutImpl::{symbolic_push,push,pop};to_path_buf"
+#[cfg_attr(kani, kani::proof)]
+#[cfg_attr(kani, kani::unwind(8))]
+#[cfg_attr(kani, kani::stub(std::vec::Vec::resize, crate::stubs::vec_resize))]
+#[cfg_attr(kani, kani::stub(<[u8]>::to_vec, crate::stubs::slice_to_vec))]
+pub fn c09_normalized_copy_n3() {
+    normalized_copy::<3>()
+}
+
+// @h prop=C09 tier=thorough kind=check timeout=3600 mem=34 bound="uri::Path text <= 4 bytes" encodes="PathImpl::normalized;PathMutImpl::{symbolic_push,push,pop};to_path_buf"
 #[cfg_attr(kani, kani::proof)]
 #[cfg_attr(kani, kani::unwind(9))]
 #[cfg_attr(kani, kani::stub(std::vec::Vec::resize, crate::stubs::vec_resize))]
@@ -162,7 +171,7 @@ fn normalize_in_place<const N: usize>() {
     let t = Text::<N>::any();
     let b = t.bytes();
     assume(uri::Path::new(b).is_ok());
-    let mut x = unsafe { uri::PathBuf::new_unchecked(vec_of(b)) };
+    let mut x = unsafe { uri::PathBuf::new_unchecked(vec_cap::<12>(b)) };
     x.normalize();
     let out = x.as_bytes();
     assert!(result_is_expected(b"", b, b"", out, false, N + 3, N + 2), "C09: normalize() did not rewrite the path to the RFC 5.2.4 / Errata 4547 sequence");
@@ -171,7 +180,18 @@ fn normalize_in_place<const N: usize>() {
     forget(x);
 }
 
-// @h prop=C09,C04 tier=quick kind=check timeout=3000 mem=24 bound="uri::PathBuf text <= 4 bytes" encodes="PathMutImpl::normalize;NormalizedSegmentsImpl::new;SmallVec<[u8;512]> push/extend_from_slice (stubbed, spill asserted unreachable);utils::replace"
+// @h prop=C09,C04 tier=thorough kind=check timeout=3600 mem=34 bound="uri::PathBuf text <= 3 bytes" encodes="PathMutImpl::normalize;NormalizedSegmentsImpl::new;SmallVec<[u8;512]> push/extend_from_slice (stubbed, spill asserted unreachable);utils::replace"
+#[cfg_attr(kani, kani::proof)]
+#[cfg_attr(kani, kani::unwind(8))]
+#[cfg_attr(kani, kani::stub(std::vec::Vec::resize, crate::stubs::vec_resize))]
+#[cfg_attr(kani, kani::stub(smallvec::SmallVec::try_grow, crate::stubs::sv_try_grow))]
+#[cfg_attr(kani, kani::stub(smallvec::SmallVec::push, crate::stubs::sv_push))]
+#[cfg_attr(kani, kani::stub(smallvec::SmallVec::extend_from_slice, crate::stubs::sv_extend_from_slice))]
+pub fn c09_normalize_in_place_n3() {
+    normalize_in_place::<3>()
+}
+
+// @h prop=C09,C04 tier=thorough kind=check timeout=3600 mem=34 bound="uri::PathBuf text <= 4 bytes" encodes="PathMutImpl::normalize;NormalizedSegmentsImpl::new;SmallVec<[u8;512]> push/extend_from_slice (stubbed, spill asserted unreachable);utils::replace"
 #[cfg_attr(kani, kani::proof)]
 #[cfg_attr(kani, kani::unwind(9))]
 #[cfg_attr(kani, kani::stub(std::vec::Vec::resize, crate::stubs::vec_resize))]
@@ -201,7 +221,7 @@ fn normalize_embedded<const N: usize>() {
     assume(tables::t_uri_uriref_valid_k(b, N));
     let before = split_ref(b);
     let cb = comps_of(b, &before);
-    let mut x = unsafe { UriRefBuf::new_unchecked(vec_of(b)) };
+    let mut x = unsafe { UriRefBuf::new_unchecked(vec_cap::<12>(b)) };
     x.path_mut().normalize();
     let out = x.as_bytes();
     // scheme, authority, query and fragment byte-identical, path = the expected rendering
@@ -216,7 +236,7 @@ fn normalize_embedded<const N: usize>() {
     forget(x);
 }
 
-// @h prop=C09,C04:thorough tier=quick kind=check timeout=3000 mem=26 bound="UriRefBuf text <= 4 bytes" encodes="RiRefBufImpl::path_mut;PathMutImpl::normalize (embedded);utils::replace"
+// @h prop=C09,C04 tier=thorough kind=check timeout=3600 mem=34 bound="UriRefBuf text <= 4 bytes" encodes="RiRefBufImpl::path_mut;PathMutImpl::normalize (embedded);utils::replace"
 #[cfg_attr(kani, kani::proof)]
 #[cfg_attr(kani, kani::unwind(9))]
 #[cfg_attr(kani, kani::stub(std::vec::Vec::resize, crate::stubs::vec_resize))]
